@@ -65,7 +65,7 @@ static void decode_case(const block_t *b, uint64_t mask, int api, int order, int
 	for (uint32_t e = 0; e < n; e++) if (mask >> e & 1) g_sub[m++] = e;
 	if (order == 1) for (uint32_t i = 0; i < m / 2; i++) { uint32_t t = g_sub[i]; g_sub[i] = g_sub[m - 1 - i]; g_sub[m - 1 - i] = t; }
 	if (order == 2) for (uint32_t i = m; i > 1; i--) { uint32_t j = rng_below(r, i); uint32_t t = g_sub[i - 1]; g_sub[i - 1] = g_sub[j]; g_sub[j] = t; }
-	hist_t h = { api, finish, cb, 0, 0, truncate >= 0 && (uint32_t)truncate < m ? (uint32_t)truncate : m, g_sub, 1 };
+	hist_t h = { api, finish, cb, (int)(((mask * 0x9E3779B97F4A7C15ULL) >> 40) % 3 == 0), 0, truncate >= 0 && (uint32_t)truncate < m ? (uint32_t)truncate : m, g_sub, 1, 0, 1 };
 	if (!rep_case("2d-decode k=%u r=%u L=%u mask=0x%llx api=%d order=%d cb=%d finish=%d nsub=%u", k, b->c.r, b->c.L, (unsigned long long)mask, api, order, cb, finish, h.nsub)) return;
 	g_session_preprobe = ((mask * 2654435761ULL) >> 13) % 4 == 0;
 	hres_t res; run_history(b, &h, MON_C16 | MON_C01 | MON_C10 | MON_C08, &res);
